@@ -126,7 +126,10 @@ def export_gltf(
     files = {}
 
     base64_buffer_format = "data:application/octet-stream;base64,{}"
-    if merge_buffers:
+    if len(buffer_items) == 0:
+        # an empty scene has no data: a zero-length buffer is not valid
+        buffers, views = [], []
+    elif merge_buffers:
         views = _build_views(buffer_items)
         buffer_data = b"".join(buffer_items.values())
         if embed_buffers:
